@@ -4,6 +4,7 @@ import (
 	"fmt"
 	"reflect"
 	"runtime"
+	"strconv"
 	"strings"
 	"sync"
 	"time"
@@ -546,8 +547,164 @@ func c12(r *mon.Run) {
 				t.Sample(map[string]interface{}{"mode": c12Modes[mode], "goroutines": N, "gomaxprocs": procs, "expression": expr, "overlapping_pairs": pairs})
 			}
 		}}
-	r.Exec(w)
+	r.Exec(w, c12Alone(r, rl))
 	r.Extra["race_log_active"] = rl != nil
+}
+
+// c12Alone: rounds judged against the same call made alone (on an identical, separately built document, through a separately
+// compiled expression), for documents the reference model does not describe: leaves that are json.Number / int / pointers,
+// Go structs with typed slices of unusual element types, lists of thousands of elements. The shared document and the shared
+// compiled expression are cold when the goroutines are released: whatever a first call converts, caches or farms out happens
+// while the others are in flight.
+type c12Leaf struct {
+	N float64
+	S string
+}
+type c12Named string
+type c12Odd struct {
+	Ints  []int
+	Flags []bool
+	Grid  [][]string
+	Ptrs  []*c12Leaf
+	U8    []uint8
+	F32   []float32
+	Names []c12Named
+	Any   []interface{}
+	Maps  []map[string]float64
+	I64   []int64
+	Objs  []c12Leaf
+}
+
+func c12Alone(r *mon.Run, rl *mon.RaceLog) mon.Workload {
+	type ac struct {
+		name  string
+		mk    func() interface{}
+		exprs []string
+	}
+	big := func(n int, str bool) interface{} {
+		a := make([]interface{}, n)
+		x := uint64(88172645463325252)
+		for i := range a {
+			x ^= x << 13
+			x ^= x >> 7
+			x ^= x << 17
+			if str {
+				a[i] = fmt.Sprintf("s%05d", x%100000)
+			} else {
+				a[i] = float64(x%2000003) - 1e6
+			}
+		}
+		return a
+	}
+	cases := []ac{
+		{"json.Number leaves (a document decoded with UseNumber)", func() interface{} { return docs.Exotic(c06BaseDoc(), 0) },
+			[]string{"ao[*].n", "ao[*].o.n", "o.o.n", "ao[?n == `1`].s", "to_string(ao[0])", "an[1:]", "length(an)", "ao[*].an[]", "o.ao[*].n", "[ao[0].o, o.o]", "values(o.o)", "aa[][]", "ao[*].an[0]", "not_null(z, ao[1].o.n)", "ao[*].{n: n, d: o.n}", "map(&o.n, ao)", "type(o.o.n)", "@"}},
+		{"int / uint8 leaves", func() interface{} { return docs.Exotic(c06BaseDoc(), 1) },
+			[]string{"ao[*].n", "ao[*].o.n", "o.o.n", "to_string(ao[0])", "an[1:]", "ao[*].an[]", "values(o.o)", "aa[][]", "map(&o.n, ao)", "@"}},
+		{"pointer leaves", func() interface{} { return docs.Exotic(c06BaseDoc(), 2) },
+			[]string{"ao[*].n", "ao[*].o.n", "o.o.n", "to_string(ao[0])", "an[1:]", "ao[*].an[]", "aa[][]", "@"}},
+		{"pointers to containers", func() interface{} { return docs.Exotic(c06BaseDoc(), 4) },
+			[]string{"ao[*].n", "ao[*].o.n", "o.o.n", "an[1:]", "ao[*].an[]", "aa[][]", "length(an)", "@"}},
+		{"typed slices of unusual element types", func() interface{} {
+			return &c12Odd{Ints: []int{3, 1, 2}, Flags: []bool{true, false}, Grid: [][]string{{"b", "a"}, {"c"}}, Ptrs: []*c12Leaf{{2, "x"}, nil, {1, "y"}}, U8: []uint8{7, 8}, F32: []float32{1.5, 2.5}, Names: []c12Named{"q", "p"},
+				Any: []interface{}{float64(1), "s", nil}, Maps: []map[string]float64{{"a": 2}, {"a": 1}}, I64: []int64{9, 8, 7}, Objs: []c12Leaf{{3, "c"}, {1, "a"}}}
+		}, []string{"length(Ints)", "reverse(Flags)", "Grid[0]", "to_array(Ints)", "contains(Ints, `1`)", "join(',', Grid[0])", "map(&@, Ints)", "not_null(Ints)", "sort_by(Objs, &N)[*].S", "max_by(Maps, &a)", "Ints[1:]", "Grid[][]", "length(U8)",
+			"[length(Ints), length(Flags), length(Grid), length(F32), length(Names), length(I64), length(Maps), length(Ptrs)]", "reverse(Names)", "reverse(I64)", "to_array(F32)", "map(&[0], Grid)", "Ptrs[*].S", "length(Ptrs[*])", "not_null(U8, Ints)",
+			"contains(Names, 'q')", "to_string(Ints)", "to_string(@)", "type(Flags)", "[reverse(Ints), reverse(U8), reverse(F32), reverse(Grid)]", "map(&N, Objs)", "Any[?@]", "merge(Maps[0], Maps[1])", "keys(Maps[0])", "sort(Ints)", "max(I64)", "sum(F32)", "avg(U8)", "join('', Names)"}},
+		{"a list of 6000 numbers", func() interface{} { return big(6000, false) },
+			[]string{"sort(@)[0]", "sort(@)[-1]", "sort(@)[2999]", "reverse(sort(@))[0]", "sort_by(@, &@)[0]", "max(@)", "min(@)", "sum(@)", "length(sort(@))", "sort(@)[:3]", "sort(@[:4096])[-1]", "sort(@[:4097])[0]", "map(&abs(@), @)[-1]", "[?@ > `999990`]", "length([?@ < `0`])", "sort(@) == sort(reverse(@))"}},
+		{"a list of 5000 strings", func() interface{} { return big(5000, true) },
+			[]string{"sort(@)[0]", "sort(@)[-1]", "sort(@)[2500]", "length(join('', sort(@)))", "sort_by(@, &@)[-1]", "max(@)", "min(@)", "reverse(sort(@))[:2]", "length(sort(@))", "contains(@, 's00000')", "map(&length(@), @)[0]", "sort(@) == sort(reverse(@))"}},
+	}
+	type one struct {
+		c, e int
+	}
+	var all []one
+	for ci, c := range cases {
+		for ei := range c.exprs {
+			all = append(all, one{ci, ei})
+		}
+	}
+	canon := func(o mon.Observed) string {
+		if o.Panicked {
+			return "PANIC " + o.Panic
+		}
+		if o.Err != nil {
+			return "error"
+		}
+		return mon.Snapshot(docs.JSONForm(o.V))
+	}
+	reps := tierPick(r, 1, 12)
+	prev := runtime.GOMAXPROCS(0)
+	return mon.Workload{Name: "rounds-against-the-call-made-alone", N: len(all) * 4 * reps, Serial: true, Batch: 20,
+		Describe: func(i int) string {
+			x := all[(i/4)%len(all)]
+			return cases[x.c].exprs[x.e] + " on " + cases[x.c].name
+		},
+		Do: func(i int, t *mon.Tally) {
+			defer runtime.GOMAXPROCS(prev)
+			x := all[(i/4)%len(all)]
+			c := cases[x.c]
+			expr := c.exprs[x.e]
+			oneShot := i%2 == 1
+			procs := []int{16, 2}[(i/2)%2]
+			N := []int{16, 8, 32}[(i/4/len(all))%3]
+			alone := canon(apiCompiledSearch(expr, c.mk())) // a separate document, a separate compiled expression: nothing here is warmed up
+			jp, co := apiCompile(expr)
+			if co.Panicked || co.Err != nil {
+				r.Inconclusive("C12 workload expression does not compile: " + expr + ": " + co.String())
+				return
+			}
+			shared := c.mk()
+			before := mon.Snapshot(shared)
+			runtime.GOMAXPROCS(procs)
+			outs := make([]mon.Observed, N)
+			var wg sync.WaitGroup
+			gate := make(chan struct{})
+			for k := 0; k < N; k++ {
+				wg.Add(1)
+				go func(k int) {
+					defer wg.Done()
+					<-gate
+					if oneShot {
+						outs[k] = apiSearch(expr, shared)
+					} else {
+						outs[k] = apiJP(jp, shared)
+					}
+				}(k)
+			}
+			close(gate)
+			wg.Wait()
+			t.Evals(N)
+			api := "(*JMESPath).Search x shared document"
+			if oneShot {
+				api = "one-shot Search x shared document"
+			}
+			desc := fmt.Sprintf("%s; %d goroutines, GOMAXPROCS=%d", c.name, N, procs)
+			if rep := rl.Grown(); rep != "" {
+				n, frames := mon.RaceSummary(rep, "go-jmespath")
+				if len(frames) > 0 {
+					r.Violate(&mon.Violation{Workload: "rounds-against-the-call-made-alone", Index: i, API: api, Expr: expr, DocDesc: desc,
+						Expected: "no data race on the compiled expression, shared library state or a document the callers only read",
+						Observed: fmt.Sprintf("race detector: %d report(s) with library frames: %s", n, strings.Join(frames, ", ")), Detail: clipStr(rep, 8000), Class: "race: " + strings.Join(frames, ", ")})
+					return
+				}
+				r.Inconclusive("race report without a library frame (harness-internal?): " + clipStr(rep, 400))
+			}
+			if after := mon.Snapshot(shared); after != before {
+				r.Violate(&mon.Violation{Workload: "rounds-against-the-call-made-alone", Index: i, API: api, Expr: expr, DocDesc: desc, Expected: "shared document unchanged: " + clipStr(before, 400), Observed: clipStr(after, 400), Class: "shared document modified"})
+				return
+			}
+			for k, o := range outs {
+				if got := canon(o); got != alone {
+					r.Violate(&mon.Violation{Workload: "rounds-against-the-call-made-alone", Index: i, API: api, Expr: expr, DocDesc: desc, Expected: "what the same call returns when made alone: " + clipStr(alone, 400),
+						Observed: fmt.Sprintf("goroutine %d of %d: %s", k, N, clipStr(got, 400)), Detail: o.Stack, Class: "concurrent result differs from the call made alone"})
+					return
+				}
+			}
+			t.Count("rounds judged against the call made alone")
+			t.Nontrivial("alone:" + strconv.Itoa(i))
+		}}
 }
 
 // c12Poly: mode (l). Expressions whose argument is of a different kind from one document to the next (functions
